@@ -199,7 +199,7 @@ func init() {
 	checks["C13"] = func(p *Program, r *Report) {
 		// the expiry is applied to the stack that was validated under the lock: the range
 		// and the view do not change between the up-to-date check and the rewrite
-		checkFsSubset(p, r, []string{"COMPACT-PUBLISHES", "LIST-VALID", "LIST-CONTENT", "CONFIG-SAME"}, map[string]int{"COMPACT-PUBLISHES": 2, "CONFIG-SAME": 2})
+		checkFsSubset(p, r, []string{"COMPACT-PUBLISHES", "LIST-VALID", "LIST-CONTENT", "CONFIG-SAME", "EXPIRY-APPLIED"}, map[string]int{"COMPACT-PUBLISHES": 2, "CONFIG-SAME": 2, "EXPIRY-APPLIED": 1})
 		checkCompactionTables(p, r, true, false)
 		r.Engines = []string{"pathsim", "dtable", "fsproto"}
 		r.Explanation = "Exact decision table of the expiry filter: over the atoms cfg=nil, cfg.Time?0, rec.Time?cfg.Time, cfg.Max?0, rec.idx?cfg.Max, cfg.Min?0, rec.idx?cfg.Min (all valuations consistent with the order theory are enumerated), KEEP implies not expired and DROP implies expired or a bottom tombstone, with E = cfg!=nil and ((Time>0 and rec.Time<Time) or (Max!=0 and idx>Max) or (Min!=0 and idx<Min)); the record written is the record read; refs are dropped only as bottom tombstones, never by expiry; a compaction that merged reports success only after publishing the new list."
